@@ -405,6 +405,11 @@ def scope_events(encs=SCOPE_ENCODINGS):
     ev.append(['diff', b'a\n', None, None, None])
     ev.append(['diff', 'a\n'.encode('utf-16'), None, None, None])
     ev.append(['diff', 'a\r\n'.encode('utf-16'), None, 'utf-16', None])
+    # diffs that say what they are (type / line endings) but not in which
+    # encoding: still plain bytes, whatever the containers declare
+    ev.append(['diff', b'a', 'text', None, None])
+    ev.append(['diff', b'a\n', 'text', None, 'unix'])
+    ev.append(['diff', b'a\r\nb', 'binary', None, 'dos'])
     return ev
 
 
